@@ -50,6 +50,24 @@ def _setup():
   jax.config.update('jax_enable_x64', True)
 
 
+def prepare(ctx):
+  """translator tie of the `Mjx.*` transcription: regenerate lean/Brax/Gen/Mjx.lean from the real
+  `mujoco.mjx._src.collision_primitive` functions (harness/gen_lean_mjx.py); the bridge theorems
+  `mjx_translator_tie_*` of Props/C10.lean are then re-checked against it by the lean stage."""
+  _setup()
+  import gen_lean_mjx as GM
+  out = os.path.join(os.path.dirname(HERE), 'lean', 'Brax', 'Gen', 'Mjx.lean')
+  _, rep = GM.generate(out, seed=ctx.seed)
+  broken = []
+  for name, r in rep.items():
+    if not r.get('ok'):
+      broken.append(f'mjx translator: {name}: {r.get("error")}')
+    elif not (r['selftest_err'] < 1e-9):
+      broken.append(f'mjx translator self-test: {name}: jaxpr interpreter differs from the real call by '
+                    f'{r["selftest_err"]}')
+  return dict(broken=broken)
+
+
 # ----------------------------------------------------------------------------- scenes
 
 
